@@ -588,3 +588,81 @@ def check_return_links(ctx, F, rule="E-FREELIST.link"):
     ctx.ob(rule, rule, not fails and n >= 5, "return_preallocated (%s): %s" % (F.where(fid), " || ".join(fails[:2]) if fails else
                                                                              "links the rest of the chunk in front of the thread's list and publishes the head"))
     return n
+
+
+def check_sentinel(ctx, F, rule="E-FREELIST.sentinel"):
+    """Free lists of slot ids are terminated by 0 (id 0 is never a free inner-node slot).  Every constant that meets a
+    free-list head in the index manager -- the argument of `Cell::set / replace` on the thread-local `next_free`, the
+    default of `shared.next_free.pop().unwrap_or(..)`, and the constant a head is compared with -- is 0.  Another value
+    makes slot 1 (or whatever it names) look free and hands a live slot out again."""
+    found = []
+    for fid, m in sorted(F.mir.items()):
+        if not fid.startswith("oxidd_manager_index::manager::"):
+            continue
+        B = cfg.Body(m)
+        nice = re.sub(r"\{closure#\d+\}", "{closure}", F.nice(fid))
+        for i, t in B.calls():
+            if m["blocks"][i]["c"]:
+                continue
+            cn = cfg.callee_name(t) or ""
+            if (cn.endswith("Cell::<T>::replace") or cn.endswith("Cell::<T>::set")) and cell_field(B, m, t) == "next_free":
+                c = cfg.const_int(t["a"][1])
+                if c is not None:
+                    found.append((fid, nice, "Cell::%s(next_free, %d)" % (cn.rsplit("::", 1)[-1], c), c))
+            if cn.endswith("::unwrap_or") and t.get("a"):
+                org = origins(B, m, [t["a"][0]])
+                if any(o[0] == "call" and (cfg.callee_name(o[1]) or "").endswith("::pop") for o in org):
+                    c = cfg.const_int(t["a"][1])
+                    found.append((fid, nice, "next_free.pop().unwrap_or(%s)" % c, c))
+        for i in sorted(B.reach):
+            b = m["blocks"][i]
+            if b["c"]:
+                continue
+            for s in b["s"]:
+                rv = s.get("rv") or {}
+                if rv.get("k") == "bin" and rv.get("o") in ("Eq", "Ne", "Lt", "Le", "Gt", "Ge"):
+                    for x, y in (("a", "b"), ("b", "a")):
+                        c = cfg.const_int(rv.get(y))
+                        if c is None:
+                            continue
+                        hit = "next_free" in str(rv.get(x))
+                        for o in origins(B, m, [rv.get(x)]):
+                            if o[0] == "call" and (cfg.callee_name(o[1]) or "").endswith("Cell::<T>::get") and cell_field(B, m, o[1]) == "next_free":
+                                hit = True
+                        if hit:
+                            found.append((fid, nice, "head %s %d" % (rv["o"], c), c if rv["o"] in ("Eq", "Ne") else None))
+    bad = [(nice, what, F.where(fid)) for fid, nice, what, c in found if c != 0]
+    ctx.ob(rule, rule, not bad and len(found) >= 7,
+           "%d constants meet a free-list head in the index manager, all 0" % len(found) if not bad and len(found) >= 7 else
+           ("free-list head meets a constant other than the end-of-list marker 0: " +
+            "; ".join("%s (%s): %s" % (n_, w_, x_) for n_, x_, w_ in bad[:3])) if bad else
+           "only %d sentinel sites found (expected >= 7)" % len(found))
+    return len(found)
+
+
+def check_count_signs(ctx, F, rule="E-FREELIST.countsign"):
+    """`SharedStoreState::node_count` (the approximate node count that arms the automatic garbage collection and picks the
+    concurrent reordering path) only ever receives thread-local deltas by addition; the only subtractions are `-= 1`
+    (a failed allocation, a single slot freed outside a session).  Inventory of all updates in the index manager."""
+    ups = []
+    for fid, m in sorted(F.mir.items()):
+        if not fid.startswith("oxidd_manager_index::manager::"):
+            continue
+        B = cfg.Body(m)
+        for i in sorted(B.reach):
+            b = m["blocks"][i]
+            if b["c"]:
+                continue
+            for s in b["s"]:
+                if _is_nc_update(s, "Add") or _is_nc_update(s, "Sub"):
+                    rv = s["rv"]
+                    ups.append((fid, str(rv.get("o"))[:3], cfg.const_int(rv.get("b"))))
+    bad = [(F.nice(fid), op, c) for fid, op, c in ups if op == "Sub" and c != 1]
+    nsub = sum(1 for _, op, c in ups if op == "Sub")
+    ok = not bad and nsub <= 3 and len(ups) >= 6
+    ctx.ob(rule, rule, ok,
+           "%d updates of the shared node count: deltas are added, subtractions are `-= 1` only (failed allocation / a single freed slot)" % len(ups) if ok else
+           "the shared node count is decreased by a delta (%s): the count drifts away from the number of nodes, the automatic "
+           "garbage collection is armed at the wrong time" % "; ".join("%s: %s %s" % b for b in bad[:3]) if bad else
+           "unexpected number of updates (%d, %d subtractions)" % (len(ups), nsub))
+    return len(ups)
